@@ -165,6 +165,7 @@ def _run_c31(ctx):
     pid = "C31"
     lib.tlc(ctx, "mc_hosts", "MC_FetchHosts.tla", "MC_FetchHosts.cfg", workers=2, timeout=600)
     _reject(ctx, "mc_hosts_as_shipped", "MC_FetchHosts.tla", "MC_FetchHosts_as_shipped.cfg", "C31_NoDubiousFetch")
+    _reject(ctx, "mc_hosts_unknown_only", "MC_FetchHosts.tla", "MC_FetchHosts_unknown_only.cfg", "C31_NoDubiousFetch")
     gen = lib.tlc(ctx, "gen_hosts", "MC_FetchHosts.tla", "Gen_FetchHosts.cfg", workers=2, timeout=600, count=False)
     rows = ctx.path("rows.ndjson")
     n = lib.extract_replays(gen["out"], rows)
@@ -185,7 +186,8 @@ def _run_c31(ctx):
     ]
     rule = ("one world: a trust anchor issuing, per host class of the table, one CA with the class in caRepository "
             "(rsync://<authority>/m<i>/ca/) and one with the class in rpkiNotify (https://<authority>/r<i>/notify.xml); "
-            "full validation runs with allow-dubious-hosts off and on (thorough: 1, 2 and 6 validation threads). Oracle "
+            "full validation runs with allow-dubious-hosts off and on on a fresh cache, then off and on again on the cache the "
+            "run with the option on left (copies of the dubious repositories present) (thorough: 1, 2 and 6 validation threads). Oracle "
             "per row: filter on and host localhost (any case) / IP literal / explicit port => no rsync invocation and "
             "no HTTP request for that URI. non-trivial = row with the antecedent true; distinct by (kind, class)")
     return lib.finish(ctx, r, rule, exhaustive=True)
@@ -196,7 +198,7 @@ _NOTE37 = ("TLC checks Fetch.tla exhaustively (3 threads x 2 keys, thorough: two
            "replays drive real threads through the exported schedules on collector::Run with in-process rsync and a minimal "
            "RRDP server double (notification + snapshot). Both transports are replayed, RRDP included. Trusted: preemption "
            "hooks, the doubles, Gate.")
-_NOTE31 = ("TLC checks the table of Fetch.tla (27 host classes x 2 URI kinds x option on/off) against the statement and rejects "
+_NOTE31 = ("TLC checks the table of Fetch.tla (27 host classes x 2 URI kinds x option on/off x fresh cache / cache of a run with the option on) against the statement and rejects "
            "the case-sensitive as-shipped predicate; every row the rpki URI parser admits is run through whole validation "
            "runs. Trusted: the object factory, the rsync/HTTP doubles.")
 
